@@ -12,3 +12,4 @@ func installHook() {}
 func libraryGlobals() map[string]any { return map[string]any{} }
 
 var _ = yieldHook
+var _ = lockHook
